@@ -35,7 +35,8 @@ Fixpoint sup_okb (m : list pt) (sup : list (Z * Z)) : bool :=
 
 (* model vs implementation: the same super triangle, the same set of wound triangles (the order of the index buffer is the
    map order and the rotation of a triple is not an observable the statement talks about), and the
-   run of the model meets the hypotheses of bw_delaunay_partial on this input *)
+   run of the model meets the hypothesis of bw_delaunay_partial (closed_run, decided by closed_runb)
+   on this input — by cavities_from_edge_closure this implies the two cavity facts at every step *)
 Definition corr_ok (c : case) : bool :=
   match c with
   | CTri m _ _ pts tris _ sup _ _ =>
@@ -44,7 +45,7 @@ Definition corr_ok (c : case) : bool :=
         | Some ts => let ts := map canon ts in let tris := map canon tris in
                      (length ts =? length tris)%nat &&
                      forallb (fun t => tri_inb t tris) ts && forallb (fun t => tri_inb t ts) tris &&
-                     cavities_okb super_fixed (qpts pts) && sup_okb (super_fixed (qpts pts)) sup
+                     closed_runb super_fixed (qpts pts) && sup_okb (super_fixed (qpts pts)) sup
         | None => false
         end
       else true
